@@ -54,6 +54,8 @@ type Run struct {
 	ReplaySig       string
 	ReplayFile      string
 	Workers         int
+	ShardIdx        int
+	ShardCnt        int
 
 	evals, nontrivial int64
 	mu                sync.Mutex
@@ -102,6 +104,7 @@ func Start(id string, level string) *Run {
 		r.Workers = runtime.NumCPU()
 	}
 	r.loadKnown()
+	r.initShard()
 	if *replay != "" {
 		r.ReplayFile = *replay
 		data, err := os.ReadFile(*replay)
@@ -358,6 +361,9 @@ func (r *Run) Parallel(n int, fn func(i int)) {
 				i := int(atomic.AddInt64(&next, 1))
 				if i >= n {
 					return
+				}
+				if r.ShardCnt > 0 && i%r.ShardCnt != r.ShardIdx {
+					continue
 				}
 				fn(i)
 			}
